@@ -51,6 +51,9 @@ pub enum Act {
     /// after run() ended on a cause: connect the same Context again (0 = session resumed, 1 = resumed under Receive
     /// Maximum 2, 2 = long after the disconnection, 3 = without a recorded disconnection) and run
     Reconnect(u8),
+    /// another clone of the handle comes into being / one clone (never the last) is dropped
+    CloneHandle,
+    DropHandle(usize),
     DropCtx,
     HoldCtx,
     ReleaseCtx,
@@ -88,6 +91,8 @@ pub struct Alpha {
     pub after_term: bool,
     /// after run() ended, the same Context may be connected again and the script goes on
     pub reconnect: bool,
+    /// handle clones are created and dropped along the way (at least one always survives)
+    pub handle_churn: bool,
 }
 
 impl Default for Alpha {
@@ -116,6 +121,7 @@ impl Default for Alpha {
             writer_stall: false,
             after_term: false,
             reconnect: false,
+            handle_churn: false,
         }
     }
 }
@@ -238,6 +244,17 @@ pub fn enabled(w: &World, a: &Alpha) -> Vec<Act> {
             v.push(Act::Term(t));
         }
     }
+    if a.handle_churn && !w.ctx_dropped {
+        let live: Vec<usize> = (0..w.sim.handles.len()).filter(|&i| w.sim.handles[i].is_some()).collect();
+        if !live.is_empty() && w.sim.handles.len() < 6 {
+            v.push(Act::CloneHandle);
+        }
+        if live.len() >= 2 {
+            for &i in &live {
+                v.push(Act::DropHandle(i));
+            }
+        }
+    }
     if a.reconnect && can_reconnect(w) {
         for k in 0..3u8 {
             v.push(Act::Reconnect(k));
@@ -272,7 +289,7 @@ pub fn can_reconnect(w: &World) -> bool {
     if w.term.is_none() || !w.term_checked || w.ctx_dropped || w.reconnects >= 3 || w.blind {
         return false;
     }
-    if matches!(w.term, Some(Term::HandlesDropped)) || w.sim.handles[0].is_none() || w.sim.hold_ctx || w.sim.writer.0.borrow().stalled {
+    if matches!(w.term, Some(Term::HandlesDropped)) || w.sim.handles.iter().all(|h| h.is_none()) || w.sim.hold_ctx || w.sim.writer.0.borrow().stalled {
         return false;
     }
     if !w.sim.ctx_alive() || w.sim.ctx_in_call().is_some() {
@@ -303,15 +320,29 @@ pub fn apply(w: &mut World, act: Act) {
             w.resume_full(o);
         }
         Act::Start(k) => {
-            let h = if w.sim.handles.len() > 1 && w.m.len() % 2 == 1 && w.sim.handles[1].is_some() { 1 } else { 0 };
-            if w.sim.handles[h].is_some() {
+            // operations alternate between the live handle clones
+            let live: Vec<usize> = (0..w.sim.handles.len()).filter(|&i| w.sim.handles[i].is_some()).collect();
+            if !live.is_empty() {
+                let h = live[w.m.len() % live.len().min(2)];
                 w.start(h, k);
             }
         }
         Act::Create(k) => {
-            let h = 0;
-            if w.sim.handles[h].is_some() {
+            let live: Vec<usize> = (0..w.sim.handles.len()).filter(|&i| w.sim.handles[i].is_some()).collect();
+            if let Some(&h) = live.first() {
                 w.create(h, k);
+            }
+        }
+        Act::CloneHandle => {
+            if let Some(from) = (0..w.sim.handles.len()).find(|&i| w.sim.handles[i].is_some()) {
+                let n = w.sim.clone_handle(from);
+                w.sim.note(|| format!("handle {n} cloned from handle {from}"));
+            }
+        }
+        Act::DropHandle(i) => {
+            let live = w.sim.handles.iter().filter(|h| h.is_some()).count();
+            if live >= 2 && w.sim.handles[i].is_some() {
+                w.sim.drop_handle(i);
             }
         }
         Act::FirstPoll(i) => w.submit(i),
@@ -370,6 +401,10 @@ pub fn apply(w: &mut World, act: Act) {
         }
         Act::Term(t) => match t {
             TermAct::UserDisconnect => {
+                if w.sim.handles.iter().all(|h| h.is_none()) {
+                    // nobody left who could ask for it
+                    return;
+                }
                 w.start(0, Kind::Disc);
                 // from the submission on no other cause is injected (with the context held, which of two
                 // causes wins is the select!'s free choice)
